@@ -575,6 +575,26 @@ class Trip(DataClassDictMixin):
     rides: Dict[str, Annotated[Union[Car, Bus, Van], DD]] = field(default_factory=dict)
 from mashumaro.codecs.basic import BasicDecoder
 DEC = BasicDecoder(Tuple[Annotated[Union[Cat, Dog], DD], Annotated[Union[Car, Bus, Van], DD]])
+def _tg1(c):
+    return "one_" + c.__name__
+def _tg2(c):
+    return "two_" + c.__name__
+@dataclass
+class TB1(DataClassDictMixin):
+    pass
+@dataclass
+class TA1(TB1):
+    x: int = 1
+@dataclass
+class TB2(DataClassDictMixin):
+    pass
+@dataclass
+class TA2(TB2):
+    y: int = 2
+@dataclass
+class Tagged(DataClassDictMixin):
+    p: Annotated[TB1, Discriminator(field="t", include_subtypes=True, variant_tagger_fn=_tg1)]
+    q: Annotated[TB2, Discriminator(field="t", include_subtypes=True, variant_tagger_fn=_tg2)]
 '''
 
 
@@ -638,6 +658,35 @@ def pair_task(payload):
                         witness=w if shared else None))
         if len(owners) < 4:
             obs.append(dict(id=f"{pid}.G6[pair]/registry_owned/cover", status="refuted" if not shared else "proved", detail=f"only {len(owners)} registries found for 5 discriminated positions (vacuity guard)"))
+        # each discriminator function tags variants with its own Discriminator's variant_tagger_fn
+        tprobs = []
+        want = {"p": mod._tg1, "q": mod._tg2}
+        seen_t = 0
+        for r in allrecs:
+            try:
+                m_ = ast.parse(r.text)
+            except SyntaxError:
+                continue
+            for fn_ in [n for n in m_.body if isinstance(n, ast.FunctionDef) and n.name.startswith("__unpack_Tagged_")]:
+                fld = fn_.name[len("__unpack_Tagged_"):].split("__")[0]
+                for c_ in ast.walk(fn_):
+                    if isinstance(c_, ast.Call) and isinstance(c_.func, ast.Name) and len(c_.args) == 1 and isinstance(c_.args[0], ast.Name) and c_.args[0].id == "variant" and not c_.keywords:
+                        seen_t += 1
+                        bound = (r.globals or {}).get(c_.func.id)
+                        if bound is not want.get(fld):
+                            tprobs.append(f"{fn_.name}: tags variants of field {fld!r} with {getattr(bound, '__name__', bound)!r}, its Discriminator declares {want[fld].__name__!r}")
+        tw = None
+        try:
+            tv = mod.Tagged.from_dict({"p": {"t": "one_TA1"}, "q": {"t": "two_TA2"}})
+            if (type(tv.p), type(tv.q)) != (mod.TA1, mod.TA2):
+                tw = f"Tagged.from_dict gives {tv!r}"
+        except Exception as e:  # noqa
+            tw = f"Tagged.from_dict({{'p': {{'t': 'one_TA1'}}, 'q': {{'t': 'two_TA2'}}}}) raised {type(e).__name__}: {str(e)[:160]}"
+        obs.append(dict(id=f"{pid}.G6[pair]/own_tagger", status="proved" if not tprobs and seen_t >= 2 else "refuted", unit=f"{seen_t} tagger calls in the functions of Tagged.p / Tagged.q",
+                        detail="; ".join(sorted(set(tprobs)))[:500] or ("" if seen_t >= 2 else "no tagger call found (vacuity guard)"),
+                        witness=({"confirmed": True, "source": src, "input": "{'p': {'t': 'one_TA1'}, 'q': {'t': 'two_TA2'}}", "why": tw} if tw else None)))
+        if tw:
+            probs.append(tw)
         obs.append(dict(id=f"{pid}.H[pair]/bounded_sample", status="proved" if not probs else "refuted", unit="Trip.from_dict / DEC.decode on one history (bounded)", bounded=True,
                         detail="; ".join(probs), witness=w))
         return {"obligations": obs}
